@@ -343,6 +343,12 @@ def main():
         for o in (2, 3):
             for meth in EXACT_GROUP:
                 chk.case("exact.%s.o%d.nf%d" % (meth, o, nf), case_exact, order=o, nf=nf, method=meth)
+    # "every singlet solution method ... the non-singlet solution of the same method": the singlet dispatcher hands each method name to
+    # the kernel and fill mode documented for it (shared with C12)
+    from . import C12 as c12
+
+    for o in (2, 3):
+        chk.case("dispatcher.routing.o%d" % o, c12.case_routing, order=o)
     return chk.run()
 
 
